@@ -44,6 +44,13 @@ def run(run, model):
     run.do(c04.base_loop_table, model, "C01.inherited-accept-all")
     run.do(meta.per_member_state, model, "C01.per-member-state")
     run.do(c04.override_target, model, "C01.inherited-groups-target", ("__preconditions__",))
+    # a member re-used from an ancestor is left as it is: merging once more stores the groups of the other bases on the
+    # ancestor's own checker, which then accepts calls its precondition forbids
+    run.do(meta.shared_member_rule, model, "C01.shared-member")
+    # the body is entered whenever the precondition holds: the reserved names `result` / `OLD` are refused only for
+    # callables that have postconditions
+    from . import c19
+    run.do(c19.validators, model, "C01.no-spurious-rejection", "C01.no-spurious-rejection")
     # the error raised is the contract's: building its message must not fail where Python's own evaluation succeeded
     run.do(rec.lookup, model, "C01.message-lookup")
     run.minimum("C01.gate", 2, "sync and async checker wrapper")
